@@ -29,14 +29,16 @@ func reuseProgram(shared bool) *Program {
 	}
 	heavy := &Call{Recv: P("F"), Fn: "Heavy", Args: []Expr{&Bin{Op: "+", L: P("F.K"), R: CI(0)}}}
 	loopCond := Expr(eq("F.X", 3))
-	normCond := Expr(&Bin{Op: "&&", L: eq("F.X", 0), R: &Bin{Op: "<", L: P("F.Y"), R: CI(2)}})
+	normCond := Expr(&Bin{Op: "&&", L: &Bin{Op: "&&", L: eq("F.X", 0), R: &Bin{Op: "<", L: P("F.Y"), R: CI(2)}},
+		R: &Call{Recv: P("F"), Fn: "Fresh", Args: []Expr{&NowE{}}}})
 	if shared {
 		loopCond = &Bin{Op: "&&", L: eq("F.X", 3), R: &Bin{Op: ">", L: heavy, R: CI(0)}}
 		normCond = &Bin{Op: "&&", L: normCond, R: &Bin{Op: ">", L: heavy, R: CI(0)}}
 	}
 	return &Program{Rules: []*Rule{
 		{Name: "Ret", HasSal: true, Sal: 9, When: eq("F.Z", 0),
-			Then: []*Action{{Kind: "asg", Path: P("F.Z"), Form: "=", E: CI(1)}, {Kind: "set", Name: "Mark", E: CI(1), Once: true}, {Kind: "retract", Name: "Ret"}}},
+			Then: []*Action{{Kind: "asg", Path: P("F.Z"), Form: "=", E: CI(1)}, {Kind: "set", Name: "Mark", E: CI(1), Once: true},
+				{Kind: "set", Name: "Stamp", E: &NowE{}, Once: true}, {Kind: "retract", Name: "Ret"}}},
 		{Name: "Comp", HasSal: true, Sal: 5, When: eq("F.X", 1), Then: []*Action{inc("F.Y", 10), {Kind: "complete"}, inc("F.W", 1)}},
 		{Name: "Err", HasSal: true, Sal: 5, When: eq("F.X", 2), Then: []*Action{inc("F.Y", 20), {Kind: "asg", Path: P("F.Q.V"), Form: "=", E: CI(1)}, inc("F.W", 1)}},
 		{Name: "Loop", HasSal: true, Sal: 5, When: loopCond, Then: []*Action{inc("F.Y", 1)}},
